@@ -1,6 +1,6 @@
 -------------------------- MODULE AssetRange_Trace --------------------------
 (* Binding F: io.ndjson holds one record per executed case,                   *)
-(*   [in |-> the case as generated, out |-> the real response projected].     *)
+(*   [stage, in |-> the case as generated, out |-> the real response].        *)
 (* reps.json holds the oracle (real minifier / renderer applied to each whole *)
 (* raw file).  Every record is judged by the contract Allowed; records whose  *)
 (* input is not a case of the spec (WF) are reported too (the check turns     *)
@@ -12,8 +12,12 @@ VARIABLES i, bad
 Log == ndJsonDeserialize("io.ndjson")
 TraceReps == JsonDeserialize("reps.json")
 
+(* stage "conc": the pair was recorded while other requests were in flight (the cache history is *)
+(* then whatever the schedule made it; the contract does not depend on it)                     *)
 Judge(rec) == IF ~WF(rec.in) THEN "not-a-case"
-              ELSE IF Allowed(rec.in, rec.out) THEN "" ELSE Key(rec.in, rec.out)
+              ELSE IF Allowed(rec.in, rec.out) THEN ""
+              ELSE Key(rec.in, rec.out) \o (IF rec.stage = "conc" /\ (rec.out.panicked \/ ~OutsideCase(rec.in, rec.out))
+                                             THEN "/concurrent" ELSE "")
 
 TInit == cache = <<>> /\ cfg = FALSE /\ last = NoLast /\ steps = 0 /\ i = 1 /\ bad = {}
 TNext == /\ i <= Len(Log)
